@@ -564,7 +564,9 @@ func (f *Formatter) formatReturnStatement(stmt *ast.ReturnStatement) string {
 			suffix = ")"
 		}
 		buf.WriteString(prefix)
-		buf.WriteString(stmt.ReturnExpression.String())
+		// Print through the expression formatter: ast's String() is a debug rendering
+		// which drops operators and decodes string escapes
+		buf.WriteString(f.formatExpression(stmt.ReturnExpression).String())
 		buf.WriteString(suffix)
 		if v := f.formatComment(stmt.ParenthesisTrailingComments, "", 0); v != "" {
 			buf.WriteString(" " + v)
